@@ -59,6 +59,13 @@ func New(inspect *inspector.Inspector, pkg *types.Package, info *types.Info) *In
 				if !typesinternal.IsPackageLevel(obj) {
 					addPackage(obj.Pkg())
 				}
+				// A type may be referred to through an alias declared in
+				// another package, without its own package being imported.
+				if tname, ok := obj.(*types.TypeName); ok && tname.IsAlias() {
+					if named, ok := types.Unalias(tname.Type()).(*types.Named); ok {
+						addPackage(named.Obj().Pkg())
+					}
+				}
 
 				for {
 					us, ok := ix.uses[obj]
